@@ -12,6 +12,9 @@ for sid in sorted(os.listdir(root)):
     if not os.path.exists(mp):
         print(sid, 'NO META'); continue
     checks = list(json.load(open(mp)).get('caught_by', {}).keys())
+    if os.environ.get('SEED_PRIMARY_ONLY'):
+        own = [c for c in checks if c == sid.split('-')[0]]
+        checks = (own or checks)[:1]
     t = time.time()
     p = subprocess.run(['python3', '/verif/lib/seedtool.py', 'run', sid] + checks, stdout=subprocess.PIPE, stderr=subprocess.STDOUT, text=True)
     cr = json.load(open(os.path.join(root, sid, 'check_results.json')))
